@@ -62,6 +62,9 @@ fn run_case(case: &J) -> J {
     let switch_draw = (s.trajectory_switch_fraction * s.num_tune as f64) as u64;
     let mut draws = vec![];
     let mut prev_pos = init.clone();
+    // (an auxiliary backend of the same dimension: reading a point out needs a `&mut Math`)
+    let mut aux = verif_harness::wrapmath::WrapMath::new(TestLogp::std_normal(dim));
+    let mut prev_mom = chain.verif_state().point().verif_data(&mut aux).velocity;
     let (mut esh_seen, mut norm_seen, mut eval_seen, mut gauss_seen) = {
         let m = chain.math();
         (m.log.esh.len(), m.log.normalize.len(), evlog.lock().unwrap().evals.len(), m.log.gaussians.len())
@@ -106,6 +109,13 @@ fn run_case(case: &J) -> J {
                     "stat_num_steps": stat_i64(&all, "num_steps"),
                     "esh": esh, "normalize": norms, "evals": evals, "gaussians": ngauss,
                 }));
+                drop(ev);
+                drop(m);
+                let mom = chain.verif_state().point().verif_data(&mut aux).velocity;
+                let last = draws.len() - 1;
+                draws[last]["mom"] = json!(vb(&mom));
+                draws[last]["prev_mom"] = json!(vb(&prev_mom));
+                prev_mom = mom;
                 prev_pos = pos.to_vec();
             }
         }
